@@ -802,14 +802,22 @@ def main(chk: core.Check) -> int:
     chk.level = "proof"
     chk.extra["level_note"] = "partial by nature: decision sites + normalisation argument proved; numeric sampler bodies tied by inventory + paired runs"
     t_info = translate(chk)
+    from verif.props import c13_tpe, c16_wilcoxon
+    c13_tpe.prepare(chk)        # Generated/TpeInt.lean from optuna/samplers/_tpe/sampler.py
+    c16_wilcoxon.prepare(chk)   # Generated/WilcoxonSkel.lean (wilcoxon_direction_mirror is about the whole prune)
+    from verif.props import c15_nsga
+    c15_nsga.translate(chk)     # T-nsga2: content keys of the NSGA-II functions mirrored by Model/Nsga2.lean
     if not getattr(chk, "no_prove", False):
-        chk.prove()
+        chk.prove(["OptunaVerif.Props.C13", "OptunaVerif.Props.C13Nsga"] + c13_tpe.PROPS_MODULES + c16_wilcoxon.PROPS_MODULES)
     quick = chk.tier == "quick"
     try:
         core.ensure_driver()
+        c15_nsga.correspond(chk, chk.tier)  # crowding distance under negated objectives (+ the F-C13-1 witness)
         if not os.environ.get("C13_DEV_SKIP_SITES"):  # development only: measure what the paired runs find on their own
             run_sites(chk, n_exact=60 if quick else 600, n_float=60 if quick else 600)
         replay_witnesses(chk)
+        c13_tpe.correspond(chk, chk.tier)                      # _split_trials pipeline, gamma, weights vs Model/TpeSplit.lean + mirrored runs
+        c16_wilcoxon.mirror(chk, 150 if quick else 3000)        # whole WilcoxonPruner.prune: maximize on v = minimize on -v
     except core.DriverBroken as e:
         chk.broke("correspondence", {"driver": str(e)[:800]})
     run_matrix(chk, build_jobs(chk, chk.tier), budget_s=85 if quick else 1000)
@@ -832,6 +840,10 @@ def main(chk: core.Check) -> int:
 def search(chk: core.Check) -> None:
     """Something no longer checks (proof obligation over the regenerated site table, translation, site correspondence)
     and no concrete asymmetric run is known yet: hunt for one on the real code, first where the inventory changed."""
+    from verif.props import c15_nsga
+    c15_nsga.search(chk)
+    if chk.violations:
+        return
     focus: set[str] = set()
     for ch in chk.extra.get("t_sites", {}).get("changed", []):
         f = ch["file"]
@@ -847,7 +859,7 @@ def search(chk: core.Check) -> None:
         if site:
             focus |= {"best": {"percentile", "median"}, "perc": {"percentile", "median"}, "percPrune": {"percentile", "median"}, "promotable": {"sha", "hyperband"},
                       "patient": {"patient"}, "threshold": {"threshold"}, "wilcoxon": {"wilcoxon"}, "splitSingle": {"tpe"}, "prunedScore": {"tpe"},
-                      "splitPruned": {"tpe"}, "dominates": {"nsga2", "tpe"}, "bestTrial": {"tpe", "random"}, "crowdingSort": {"nsga2"}}.get(site, set())
+                      "splitPruned": {"tpe"}, "splitTrials": {"tpe"}, "moWeights": {"tpe"}, "wilcoxonFull": {"wilcoxon"}, "dominates": {"nsga2", "tpe"}, "bestTrial": {"tpe", "random"}, "crowdingSort": {"nsga2"}}.get(site, set())
     chk.search_log.append("failing-input search: focus %s" % (sorted(focus) or "everything"))
     before = len(chk.violations)
     jobs = build_jobs(chk, "thorough" if chk.tier == "thorough" else "quick", focus or None, scale=3 if focus else 2)
@@ -857,6 +869,10 @@ def search(chk: core.Check) -> None:
 
 
 def replay(chk: core.Check, path: str) -> int:
+    from verif.props import c15_nsga
+    rc = c15_nsga.replay(chk, json.load(open(path)))
+    if rc is not None:
+        return rc
     w = json.load(open(path)).get("witness") or {}
     if w.get("kind") == "run":
         from verif import direction_k as D
@@ -870,6 +886,12 @@ def replay(chk: core.Check, path: str) -> int:
             return 1
         print("not reproduced")
         return 0
+    if w.get("kind") in ("tpesplit", "moWeights"):
+        from verif.props import c13_tpe
+        return c13_tpe.replay_case(chk, w)
+    if w.get("kind") == "wilcoxonFull":
+        from verif.props import c16_wilcoxon
+        return c16_wilcoxon.replay_case(chk, w)
     if w.get("kind") == "site":
         S = Sites()
         c = json.loads(json.dumps(w["case"]).replace('"nan"', "NaN"))
